@@ -27,6 +27,10 @@ ShapeDef(t, cs, sel) ==
     [] k = 3 -> [tag |-> "variant", variants |->
                                 << [name |-> "A", fields |-> <<F(<<>>, cs[2], <<>>, <<>>), F(<<>>, cs[3], <<"T3">>, <<>>)>>, index |-> 9, docs |-> <<>>] >>]
 ShapeParams(t, cs, sel) == IF Len(cs) = 1 /\ sel % 4 = 3 /\ t % 2 = 1 THEN <<[name |-> "T", ty |-> Some(cs[1])]>>
+                      \* parameters on definitions that are neither composite nor variant (a bounded collection presenting
+                      \* as a sequence, a generic alias of a tuple): hand-written and decoded types may have them
+                      ELSE IF Len(cs) = 1 /\ sel % 4 = 0 /\ t >= 2 THEN <<[name |-> "T", ty |-> Some(cs[1])], [name |-> "S", ty |-> None]>>
+                      ELSE IF Len(cs) = 2 /\ sel % 4 = 1 /\ t % 2 = 1 THEN <<[name |-> "B", ty |-> Some(cs[2])]>>
                       ELSE IF Len(cs) = 2 /\ sel % 4 = 3
                       THEN <<[name |-> "T", ty |-> Some(cs[1])], [name |-> "U", ty |-> None]>>
                       ELSE IF Len(cs) = 2 /\ sel % 4 = 2        \* a skipped parameter BEFORE one that carries a type
